@@ -597,6 +597,20 @@ pub fn run(cfg: &Config) -> PropRun {
             }
         }
     }
+    // one statement per literal scanner and suffix (the macro-free ones), alone and as a value
+    for l in crate::props::C15_LITERAL_B {
+        for t in [(*l).to_string(), format!("x={l};"), format!("{l} {l}"), format!("{l}{l}")] {
+            if is_macro_free(&t) {
+                stmts.push(t);
+            }
+        }
+    }
+    for body in ["", "41", "4g", "41\"\"42", "\"\"", "4", "41,42", " 41 ", "é"] {
+        for sfx in ["x", "X", "n", "d", "dt", "t", "b", ""] {
+            stmts.push(format!("\"{body}\"{sfx}"));
+            stmts.push(format!("'{}'{sfx}", body.replace('"', "'")));
+        }
+    }
     stmts.sort();
     stmts.dedup();
     if cfg.only_spaces.is_empty() && !stmts.is_empty() {
